@@ -1717,6 +1717,9 @@ class Interp(object):
         full = mod.name + '.' + name
         if mod.name == 'numpy' or mod.name.startswith('numpy.'):
             return self.np.module_attr(mod.name, name)
+        ov = self.config.get('module_overrides')
+        if ov and full in ov:
+            return ov[full]
         if mod.name.startswith('FlowCal'):
             if mod.name == 'FlowCal' and name in ('io', 'plot', 'gate', 'transform', 'stats', 'mef', 'excel_ui'):
                 return ModuleObj('FlowCal.' + name)
@@ -2096,10 +2099,167 @@ class Interp(object):
             self.exec_block(node.orelse, env)
             return
         if spec is None:
+            if self.map_style_loop(node, env, it, q, k):
+                return
             self.unsupported(node, 'loop #%d of %s over a symbolic-length iterable has no invariant' % (k, q))
         if node.orelse:
             raise Unsupported('for-else with invariant')
         self.cut_loop(node, env, it, spec, q, k)
+
+    # -- map-style loops: "for x in xs: ...; out.append(f(x))" --------------------------------------
+    def map_style_loop(self, node, env, it, q, k):
+        """A loop over a symbolic-length iterable whose only effect is one unconditional append per iteration to
+        each of some local lists (everything else in the body assigns loop-local names) is an element-wise map:
+        after the loop, list L is  old L ++ [value appended in iteration k for k < n].  The invariant is inferred
+        from this template; the body is (re-)executed for a symbolic iteration whenever an element is read."""
+        if node.orelse:
+            return False
+        appends = []        # (list name, index of the statement in the body)
+        for si, st in enumerate(node.body):
+            if isinstance(st, ast.Expr) and isinstance(st.value, ast.Call) and isinstance(st.value.func, ast.Attribute) \
+                    and st.value.func.attr == 'append' and isinstance(st.value.func.value, ast.Name) \
+                    and len(st.value.args) == 1 and not st.value.keywords:
+                appends.append((st.value.func.value.id, si))
+        if not appends or len(set(a for a, _ in appends)) != len(appends):
+            return False
+        names = [a for a, _ in appends]
+        body_assigned = set(sub.id for st in node.body for sub in ast.walk(st)
+                            if isinstance(sub, ast.Name) and isinstance(sub.ctx, ast.Store))
+        # no other statement may mention the lists, break/continue/return are not part of the template
+        for si, st in enumerate(node.body):
+            for sub in ast.walk(st):
+                if isinstance(sub, (ast.Break, ast.Continue, ast.Return, ast.Global, ast.Nonlocal, ast.Delete, ast.With)):
+                    return False
+                if isinstance(sub, ast.Name) and sub.id in names and not (si in [i for _, i in appends] and sub is st.value.func.value):
+                    return False
+                if isinstance(sub, (ast.Attribute, ast.Subscript)) and isinstance(sub.ctx, ast.Store):
+                    base = sub.value
+                    while isinstance(base, (ast.Attribute, ast.Subscript)):
+                        base = base.value
+                    if not (isinstance(base, ast.Name) and base.id in body_assigned):
+                        return False    # heap stores other than the appends / loop-local objects (checked again at run time)
+        lists = {}
+        for nm in names:
+            L = self.lookup(nm, env)
+            if not (isinstance(L, (Seq, SymSeq)) and L.kind == 'list'):
+                return False
+            lists[nm] = L
+        n = self.iter_len(it)
+        nz = self.z(n, 'int')
+        it_snap = self.snapshot(it)
+        hoisted = {}
+        tnames = set(t.id for t in ast.walk(node.target) if isinstance(t, ast.Name))
+        assigned = set()
+        for st in node.body:
+            for sub in ast.walk(st):
+                if isinstance(sub, ast.Name) and isinstance(sub.ctx, ast.Store):
+                    assigned.add(sub.id)
+        for st in node.body:
+            for kk_, vv_ in self.hoist_invariants_stmt(st, tnames | assigned | set(names), env).items():
+                hoisted[kk_] = vv_
+
+        def run_iteration(interp_, kz, want):
+            """execute the body for iteration kz in a scratch scope; returns the value appended to list `want`"""
+            scope = {'__parent__': env, '__globals__': env.get('__globals__'), '__module__': env.get('__module__')}
+            captured = {}
+            saved = interp_.hoist
+            saved_pure = interp_.pure_since
+            interp_.hoist = hoisted
+            if saved_pure is None:
+                interp_.pure_since = next(_stamp)      # the iteration may only write objects it creates itself
+            for nm in names:
+                cap = stamp(Seq('list', []))
+                cap.capture_for = nm
+                scope[nm] = cap
+                captured[nm] = cap
+            try:
+                item = interp_.seq_get_sym(it_snap, kz)
+                interp_.assign_target(node.target, item, scope)
+                interp_.exec_block(node.body, scope)
+            finally:
+                interp_.hoist = saved
+                interp_.pure_since = saved_pure
+            if want is None:
+                return None
+            return captured[want].items[0]
+        # exceptions of the body are hoisted: the loop raises iff some iteration raises (the first one)
+        kf = self.ctx.fresh_int('loop_k')
+        results = self.sub_explore(lambda: run_iteration(self, kf, None), [0 <= kf, kf < nz])
+        exc_conds = []
+        for r in results:
+            if r.outcome == 'raise':
+                exc_conds.append(z3.And(*r.pc_suffix) if r.pc_suffix else z3.BoolVal(True))
+        if exc_conds:
+            anyexc = z3.Or(*exc_conds)
+            if self.ctx.branch(z3.Exists([kf], z3.And(0 <= kf, kf < nz, anyexc))):
+                k0 = self.ctx.fresh_int('loop_k0')
+                self.ctx.assume(z3.And(0 <= k0, k0 < nz, z3.substitute(anyexc, (kf, k0))))
+                j = self.ctx.fresh_int('loop_j')
+                self.ctx.assume(z3.ForAll([j], z3.Implies(z3.And(0 <= j, j < k0), z3.Not(z3.substitute(anyexc, (kf, j))))))
+                self.ctx.loop_k = ('%s.loop%d' % (q.split('.', 1)[-1], k), k0)
+                run_iteration(self, k0, None)
+                raise PathAbort('loop body did not raise at the failing iteration')
+            self.ctx.assume(z3.ForAll([kf], z3.Implies(z3.And(0 <= kf, kf < nz), z3.Not(anyexc))))
+        self.ctx.use_axiom('engine: map-style loop template (one append per iteration) for loop %d of %s' % (k, q))
+        for nm in names:
+            L = lists[nm]
+            self.check_write(L)
+            old = self.snapshot(L)
+            n0 = self.seq_len(old)
+            n0z = self.z(n0, 'int')
+
+            def fn(interp_, i, old=old, n0z=n0z, nm=nm):
+                if isinstance(n0, int) and n0 == 0:
+                    return run_iteration(interp_, i, nm)
+                if interp_.ctx.branch(i < n0z):
+                    return interp_.seq_get_sym(old, i)
+                return run_iteration(interp_, z3.simplify(i - n0z), nm)
+            newn = self.mk(n0z + nz, 'int')
+            L.__class__ = SymSeq
+            L.kind = 'list'
+            L.n = newn
+            L.fn = fn
+            L.overlays = []
+            L.name = nm
+            L.elem_token = None
+            L.no_raise = True
+            if hasattr(L, 'items'):
+                del L.items
+        for t in tnames | assigned:
+            if t not in names:
+                env[t] = Poison('loop-local variable after a map-style loop')
+        return True
+
+    def hoist_invariants_stmt(self, st, bound, env):
+        """loop-invariant simple sub-expressions of a statement (see hoist_invariants)"""
+        out = {}
+
+        def depends(n):
+            return any(isinstance(x, ast.Name) and x.id in bound for x in ast.walk(n))
+
+        def simple(n):
+            if isinstance(n, ast.Name):
+                return True
+            if isinstance(n, ast.Attribute):
+                return simple(n.value)
+            if isinstance(n, ast.Subscript):
+                return simple(n.value) and isinstance(n.slice, ast.Constant)
+            return False
+
+        def visit(n):
+            if isinstance(n, ast.expr) and simple(n) and not depends(n) and isinstance(getattr(n, 'ctx', ast.Load()), ast.Load):
+                try:
+                    v = self.eval(n, env)
+                except (PyExc, Unsupported):
+                    return
+                out[id(n)] = (self.snapshot(v), n)
+                return
+            if isinstance(n, (ast.Lambda, ast.ListComp, ast.GeneratorExp, ast.DictComp, ast.SetComp)):
+                return
+            for ch in ast.iter_child_nodes(n):
+                visit(ch)
+        visit(st)
+        return out
 
     def iter_is_concrete(self, it):
         if isinstance(it, ZipV):
